@@ -37,6 +37,7 @@ type Gen struct {
 
 	sent     [][]byte // MessageSent payloads observed (candidates for replacement)
 	autoDump bool
+	forceVariant int   // >= 0: the variant every pickv() of the current matrix case must take (deterministic sweeps)
 	simRate  float64 // share of transactions that are simulated (on a discarded branch) right before being delivered
 	capture  *[]Op // when set, ops are collected instead of executed (used by the crash scenario)
 	stats    map[string]int
@@ -57,7 +58,7 @@ func unhexOr(s string) []byte {
 func hs(s string) string { return hex.EncodeToString([]byte(s)) }
 
 func NewGen(seed int64, ops, obs *bufio.Writer) *Gen {
-	g := &Gen{rng: rand.New(rand.NewSource(seed)), s: &Session{}, ops: ops, obs: obs, autoDump: true, simRate: 0.1, stats: map[string]int{}}
+	g := &Gen{rng: rand.New(rand.NewSource(seed)), s: &Session{}, ops: ops, obs: obs, autoDump: true, forceVariant: -1, simRate: 0.1, stats: map[string]int{}}
 	for i := 0; i < 6; i++ {
 		h := sha256.Sum256([]byte(fmt.Sprintf("acct-%d", i)))
 		raw := h[:20]
@@ -140,6 +141,16 @@ func (g *Gen) tx(ty string, kv *KV) string {
 		g.emit(Op{Kind: "dump", KV: newKV()})
 	}
 	return o
+}
+
+// pickv chooses among the n variants of one way to violate (or satisfy) a condition: at random in the random part of a
+// matrix, and in turn (forceVariant) in its deterministic preamble, where every variant of every condition is tried once
+// whatever the seed.
+func (g *Gen) pickv(n int) int {
+	if g.forceVariant >= 0 {
+		return g.forceVariant % n
+	}
+	return g.pick(n)
 }
 
 func (g *Gen) dump() string { return g.emit(Op{Kind: "dump", KV: newKV()}) }
